@@ -1369,7 +1369,7 @@ def sub_unknown(ctx):
     extra = {"mprocess": [n for n in _listed("povm") if "_" not in n], "state_ensemble": q.st.get_state_names_1qubit()}
     for f in fam:
         cand = [n for n in morpheme_names(singles[f], extra.get(f, ())) if n not in _listed(f) and not fam[f][1](n)]
-        cap = {"gate": ctx.n(16, 400), "state": ctx.n(60, 10 ** 6)}.get(f, ctx.n(90, 10 ** 6))
+        cap = {"gate": ctx.n(12, 400), "state": ctx.n(45, 10 ** 6)}.get(f, ctx.n(60, 10 ** 6))
         if len(cand) > cap:
             cand = sorted(ctx.rng.sample(cand, cap))
         nmiss[f] = len(cand)
@@ -1561,10 +1561,10 @@ def sub_2qutrit(ctx):
     # call costs 25 ms per catalogue look-up inside quara (0.1 - 0.6 s per name).  Hence two layers:
     #   hnames  name -> Hamiltonian against the Coq table (0.2 ms per name): ALL 39k names in the thorough tier, a seeded 3000 in the quick tier
     #   names   the dispatchers (level 0 unitary_mat + hamiltonian_mat, 1 + Gate object, 2 all seven object forms):
-    #           quick: 20 + 40 sampled names at level 1, every 16th at level 2;
+    #           quick: 12 + 24 sampled names at level 1, every 16th at level 2;
     #           thorough: all 198 single-base-matrix names at level 1 and every 8th two-base-matrix name (every 32nd level 1, every 128th level 2)
     if ctx.quick:
-        names = ctx.rng.sample(singles, min(len(singles), 20)) + ctx.rng.sample(doubles, min(len(doubles), 40))
+        names = ctx.rng.sample(singles, min(len(singles), 12)) + ctx.rng.sample(doubles, min(len(doubles), 24))
         level = {n: (2 if i % 16 == 0 else 1) for i, n in enumerate(names)}
         hnames = sorted(set(singles) | set(ctx.rng.sample(doubles, min(len(doubles), 3000))))
     else:
@@ -1594,7 +1594,7 @@ def sub_2qutrit(ctx):
     for site, sig, what, name in sorted(fails, key=lambda t: (t[0], t[1], t[3])):
         V(ctx, "gates_2qutrit", site, sig, what, {"name": name, "verdict": verdict})
     # model-tied sample in the main process (hs_of_kraus at d = 9 costs seconds)
-    tied = ctx.rng.sample(singles, ctx.n(1, 2)) + ctx.rng.sample(doubles, ctx.n(1, 12))
+    tied = ctx.rng.sample(singles, ctx.n(0, 2)) + ctx.rng.sample(doubles, ctx.n(1, 12))
     ctx.sample("gates_2qutrit", {"name": tied[-1], "model": True})
     ctx.run_cases("gates_2qutrit", FNS["gates_2qutrit"], [{"name": n, "model": True, "verdict": verdict} for n in tied])
     ctx.note("2-qutrit gates: Hamiltonian of %d of %d names against the Coq table (all of them in the thorough tier); %d names through quara's dispatchers on %d worker processes, "
